@@ -41,7 +41,7 @@ CHECKS["C19"] = dict(
     technique="Coq proof (read-only step never changes the stored dictionary; reads refine the dictionary) + audit-hook / tree-snapshot observation of real read-only, null-storage and null-runner configurations compared with the model",
     text="Theorem readonly_never_writes_and_reads_as_dict (all histories, any cache budget): memoize is skipped, forgets and metadata writes are rejected, reads answer as the dictionary, the stored state is unchanged. "
          "Implementation: pre-populated stores reopened read-only five ways (argument / config / registry, with / without cache) under random histories; every operation's file-system audit events and a full tree re-hash must show no mutation; "
-         "function-level call sequences through read-only, null-storage and null-runner clusters with execution traces. Also: separate metadata path, null runner over a populated store whose result data is lost, bodies that return on-disk / in-memory partitions through a read-only store (nothing may appear under the store while the result is alive).",
+         "function-level call sequences through read-only, null-storage and null-runner clusters with execution traces. Also: separate metadata path, null runner over a populated store whose result data is lost, bodies that return on-disk / in-memory partitions through a read-only store (nothing may appear under the store while the result is alive), recursive forgetting of memoized exceptions, stores populated at one path and opened read-only at another.",
     note="File-system mutation is observed via CPython audit events plus re-hashing the tree; writes bypassing both (e.g. from C extensions) would be missed. force_local() is outside the null-runner claim.",
     ref="6/C19")
 
@@ -59,7 +59,7 @@ CHECKS["C09"] = dict(
     text="Theorems over Runner/Threads.v for every schedule (list of thread ids) of any number of threads calling any keys on a cold or warm store: the body of a key runs at most once at every point, exactly once at the end if it was not memoized, never otherwise; "
          "two threads are never inside the critical section of one key; unless all are done some thread can move (flat calls). With every public MemoryCache method atomic (source fact: they hold the cache lock) the operations of all threads form one sequence and C06's invariant holds after any sequence. "
          "Implementation: real threads stopped at every method call on the cache / metadata source / data source, every function call in runner_local.py and every body start (plus every source line inside MemoryCache in line mode), "
-         "schedules explored systematically by increasing number of preemptions and sampled randomly; per-thread values, escaped exceptions, body counts and cache accounting are checked after every schedule. Also: every line of the per-call lock table function and of the link writer as scheduling points (exhaustive / bounded enumeration); the in-memory storage backend with every line of its methods a scheduling point (store listing after the threads = sequential); automatically versioned functions with nested calls right after another definition, every function call inside memento.py a scheduling point.",
+         "schedules explored systematically by increasing number of preemptions and sampled randomly; per-thread values, escaped exceptions, body counts and cache accounting are checked after every schedule. Also: every line of the per-call lock table function and of the link writer as scheduling points (exhaustive / bounded enumeration); the in-memory storage backend with every line of its methods a scheduling point (store listing after the threads = sequential); automatically versioned functions with nested calls right after another definition, every function call inside memento.py a scheduling point; readers vs writers of the cache at line granularity (every resident entry exactly once in the LRU list); a cluster described by a configuration dictionary first used by two threads at once.",
     note="Partial for: CPython's own switch points (the scheduler decides interleavings only at the listed points), nested memento calls / lock ordering along the call tree (progress theorem is for flat calls), and the blocked-thread heuristic "
          "(a granted thread that does not reach its next point within 30 ms is treated as waiting for a lock).",
     ref="6/C09")
@@ -99,14 +99,14 @@ CHECKS["C02"] = dict(
     text="Theorems over Runner/Run.v for every call DAG, every store consistent with it and every context: a memoized call returns exactly what an un-memoized execution returns (values and memoized exceptions), a later call executes no body, consistency is preserved; "
          "with C05's theorem the same holds behind a cache of any size, and forgetting removes exactly that call. Implementation: DAGs on memory / filesystem / filesystem+cache (two sizes) vs the model; generated values over the documented result domain "
          "(incl. bool vs int, date vs timestamp, float32 vs float64, -0.0/NaN, empty containers, non-ASCII, numpy dtypes/shapes, pandas objects, partitions, results larger than the cache) x backends x {normal, ignore_result, force_local}: body counts, equality and type of first and later values, "
-         "recorded result type vs value read back, forget; exception record/replay for rebuildable / non-rebuildable / function-local / nested / not-to-be-memoized classes. Also: on-disk partitions, numpy float scalars, pandas Timestamps (result type judged by an independent oracle), results dropped and collected between calls, exceptions of function-local classes, an exception recorded by one process and replayed by another in which the defining module is not imported yet.",
+         "recorded result type vs value read back, forget; exception record/replay for rebuildable / non-rebuildable / function-local / nested / not-to-be-memoized classes. Also: on-disk partitions, numpy float scalars, pandas Timestamps (result type judged by an independent oracle), results dropped and collected between calls, exceptions of function-local classes, an exception recorded by one process and replayed by another in which the defining module is not imported yet; the first (computing) call raises the body's own exception.",
     note=RUN_NOTE + "Pickle / pandas / numpy fidelity is an oracle for the model (modelled, not verified) and is what the value-domain part samples.",
     ref="6/C02")
 CHECKS["C10"] = dict(
     technique="Coq proof (the memento returned by the memoizing evaluator equals a store-independent specification of the call tree, for all programs and all consistent stores; batch = element-wise) + differential runs over subsets of pre-memoized sub-calls + scheduled concurrent scenario",
     text="Theorem provenance_exact: for every call DAG, every consistent store and context, the recorded (or found) memento lists exactly the direct sub-calls in order with their keys and exactly the functions invoked transitively beneath the call, itself included; hence identical whatever was memoized before "
          "(computed, found before the run, found by the batch pre-check, failing), single or batch. Implementation: generated DAGs with repeated / batched / failing sub-calls and context overrides x all (or sampled) subsets of sub-calls memoized beforehand x backends, compared with the model and with the exact tree; "
-         "plus the case 'found inside the per-call mutex' under a deterministic two-thread schedule. Also: sub-calls with date / time arguments (recorded argument hashes, re-read from disk); sub-calls made with ignore_result() singly and as a batch under every subset of pre-memoized sub-calls.",
+         "plus the case 'found inside the per-call mutex' under a deterministic two-thread schedule. Also: sub-calls with date / time arguments (recorded argument hashes, re-read from disk); sub-calls made with ignore_result() singly and as a batch under every subset of pre-memoized sub-calls; sub-calls that fail without leaving a memento; resource handles.",
     note=RUN_NOTE + "Resource handles are exercised by C11's generator only, not by this model.",
     ref="6/C10")
 CHECKS["C15"] = dict(
@@ -125,7 +125,7 @@ CHECKS["C17"] = dict(
     technique="Coq proof (index of a stored merge chain = overlay of the links' own dictionaries, by induction on the chain; own/from-parent flags) + source facts (which index an in-process parent contributes) + differential runs over chains x parent provenances x staging kinds",
     text="Theorems over Storage/Partition.v: a partition reads back with exactly its keys and values; one merge = parent entries marked from_parent overlaid by own keys; for chains of any length, whether each parent was read back from the store or taken from this process, "
          "lookup in the stored index = the overlay of the links (own keys win, parent-only keys remain); refutation when an in-process parent only remembers the keys it wrote itself. Implementation: random chains of length 0-4 with overlapping keys, in-memory / on-disk staging, "
-         "parent provenance {first call in this process, disk, memory cache}; every link read back four ways and compared with the model and the overlay law; parents re-read after their children are stored. Also: partitions handed on unchanged by another function, default-factory staging dicts, empty middle links, pandas members, parents taken from the memory cache as written (never re-read), parent-only keys holding None; 'stored' is judged by a fresh backend having nothing to execute.",
+         "parent provenance {first call in this process, disk, memory cache}; every link read back four ways and compared with the model and the overlay law; parents re-read after their children are stored. Also: partitions handed on unchanged by another function, default-factory staging dicts, empty middle links, pandas members, parents taken from the memory cache as written (never re-read), parent-only keys holding None; 'stored' is judged by a fresh backend having nothing to execute; members that are partitions themselves; chains alternating between two clusters with different stores (theorems over Storage/PartitionStores.v).",
     note="Member values are small ints / strings / arrays / None identified by embedded ids; pickle fidelity of members is C02's oracle.",
     ref="6/C17")
 
@@ -141,7 +141,7 @@ CHECKS["C03"] = dict(
     technique="Coq proof (the digest input = rule contents in canonical key order is invariant under any reordering of reference iteration; keys identify rules) + differential fresh-interpreter runs across PYTHONHASHSEED / import order / definition order / query order, rule set vs model, second process executes no body",
     text="Theorems over Version/Rules.v: two presentations of a program that differ only in the order in which each function's references are iterated feed the same sequence of rule contents to the digest (collect is order-dependent as a list, the sorted list is not); rule sort keys are injective. "
          "Implementation: generated programs (memento / plain functions, variables, undefined names, cycles, aliases, module attributes, int-set and string-set constants, defaults, nested code) are loaded in fresh interpreters under different hash seeds, import orders, definition orders and version-query orders; "
-         "versions, ordered rule lists and per-rule hashes must be identical, the rule set must be the model's, the version must be the digest of rule hashes in key order, and a second process against the same store must execute no body. Also: a second package with an out-of-scope helper, unorderable set globals, object-valued defaults, lambda helpers, string literals inside generator expressions, same-named variables of two modules, helpers named only in the header (default value) of their user.",
+         "versions, ordered rule lists and per-rule hashes must be identical, the rule set must be the model's, the version must be the digest of rule hashes in key order, and a second process against the same store must execute no body. Also: a second package with an out-of-scope helper, unorderable set globals, object-valued defaults, lambda helpers, string literals inside generator expressions, same-named variables of two modules, helpers named only in the header (default value) of their user, dependencies declared by hand and re-bound in the running process, hidden calls of already memoized functions.",
     note="PYTHONHASHSEED values are sampled. sha256 and the byte-level content of each rule hash are not modelled (contents are abstract numbers); per-rule hashes are compared between processes instead.",
     ref="6/C03")
 
@@ -169,7 +169,7 @@ CHECKS["C18"] = dict(
     text="Theorems over Config/Config.v: for every storage kind and option combination, building from a configuration equals building from the same constructor arguments; arguments override the file option by option; building from the dump of any reachable settings gives the settings back; "
          "a name resolves to c iff some repository defines it as c and no earlier one defines it (any list), to nothing iff none does; prepend wins, append loses; an environment rebuilt from its dump resolves every name to an equivalent cluster; refutations when memory_cache_mb is not read or metadata_path not dumped. "
          "Source facts: the option is read, the path is dumped, get_cluster returns at the first match. Implementation: ALL option combinations x {constructor arguments, inline dict, JSON files, YAML with template parameters}, all informative file x argument override pairs, "
-         "to_dict and reconstruction of every backend, behavioural confirmation (where files appear, executions, cache service after removing files) incl. on the environment rebuilt from Environment.to_dict(), repository lists built four ways with look-ups between prepend / append. Also: special characters in template parameters, cluster keys different from names, fractional cache sizes, clusters given an explicit storage object over a configuration (constructor or later assignment), explicit read_only=False over a file saying true.",
+         "to_dict and reconstruction of every backend, behavioural confirmation (where files appear, executions, cache service after removing files) incl. on the environment rebuilt from Environment.to_dict(), repository lists built four ways with look-ups between prepend / append. Also: special characters in template parameters, cluster keys different from names, fractional cache sizes, clusters given an explicit storage object over a configuration (constructor or later assignment), explicit read_only=False over a file saying true, one configuration object used twice, boolean / numeric options rendered from Python values in YAML templates.",
     note="Paths are compared as given strings; storage kinds are the registered ones (filesystem, memory, null) and runners local / null; plugin backends are out of scope.",
     ref="6/C18")
 
